@@ -171,6 +171,38 @@ def run(ctx):
                               {'case_r': nat[pairs.index((a, b, rr, rp, directed)) * 2], 'rep_r': [x[:3] for x in ra], 'rep_rprime': [x[:3] for x in rb]})
             elif max(x[2] for x in ra) < max(x[2] for x in rb):
                 ctx.violation('prefix', 'best likelihood decreased with more realizations', {'rep_r': [x[:3] for x in ra], 'rep_rprime': [x[:3] for x in rb]})
+    # ---- one public solver::Solver object used for two consecutive runs (what the project's own solver test does): the second run's report
+    #      lists ITS realizations only, and its factors are those of ITS best realization -- i.e. what a fresh Solver delivers
+    srun = []
+    for k in range(ctx.budget(40, 1500)):
+        sub = rng.fork('sr%d' % k)
+        e = gen.gen_edges(sub, 's', 'i', nmax=sub.choice([3, 5, 7]), recmax=sub.choice([4, 9]))
+        recs = [r_ for r_ in e['recs']]
+        if len(recs) < 3:
+            continue
+        K = sub.rint(2, 3)
+        toks = ['SRUN', str(880000 + k), str(int(sub.chance(0.5))), str(int(sub.chance(0.5))), str(K), str(e['L']), str(len(recs))]
+        for s_, t_, ws in recs:
+            toks += [s_, t_] + [str(max(0, int(float(w_)))) for w_ in ws]
+        toks += [str(sub.rint(1, 3)), str(sub.choice([1, 5, 12, 25])), str(sub.rint(1, 2)), str(sub.below(100000))]
+        srun.append(' '.join(toks))
+    res_s = ctx.component('K-SOLVER(one Solver object, two runs; implementation only)', srun, model=False)
+    if res_s:
+        for line in srun:
+            tr = res_s['impl'].get('S ' + line.split()[1])
+            if not tr:
+                continue
+            d = {t[0]: t[1:] for t in tr}
+            if 'second' not in d or 'fresh' not in d:
+                continue
+            n_eval += 1
+            r_ = int(d['r'][0])
+            if d['second'][:3] != [str(r_)] * 3:
+                ctx.violation('report', 'the second run of a Solver object reports %s likelihoods / %s iteration counts / %s reasons for %d realizations' % (d['second'][0], d['second'][1], d['second'][2], r_),
+                              {'case': line, 'second': d['second'][:40]})
+            elif d['second'] != d['fresh']:
+                ctx.violation('select', 'the second run of a Solver object does not deliver what a fresh Solver delivers for the same arguments (report, best likelihood or factors differ)',
+                              {'case': line, 'second': d['second'][:60], 'fresh': d['fresh'][:60]})
     ctx.oracle.update({'evaluations': n_eval, 'distinct_nontrivial': len(keys),
                        'rule': 'exhaustive: every weak ordering (ties included) of the scripted likelihoods of 1..4 realizations x directed/undirected x general/assortative (4 realizations x assortative: thorough tier only), special values (-inf, lowest, NaN); natural multi-realization runs and prefix pairs (r\' <= r, same seed). distinct = different (ordering of the likelihoods, direction)'})
     ctx.extra['exhaustive'] = True
